@@ -32,6 +32,10 @@ def sim_lines(o):
     for t in range(n):
         wtoks += wmap.get(t, zero)
     lines.append("runc %d %s %s %s" % (n, " ".join(first["clock0"]), " ".join(wtoks), " ".join(first["pre"])))
+    # the season list must be the same on every day (it is a constant of the run in the model)
+    changed = next((d for _, d in recs if d["clock0"][5:] != first["clock0"][5:]), None)
+    if changed is not None:
+        return lines, ["CLOCK-PARAMETERS-CHANGED-WHILE-STEPPING", "step", str(changed["tsc"])] + changed["clock0"][5:]
     # expected
     raised = [m for m in o["malformed"] if "clock0" in m]
     if raised:
